@@ -429,6 +429,15 @@ fn gen_c18(tier: &str, rng: &mut Rng, emit: &mut dyn FnMut(Op)) {
             }
         }
     }
+    // best_match takes the version (and its revision) from the text after the LAST '-': bases that
+    // contain '-', digits or "nb" themselves
+    for (b1, b2) in [("app-a", "app-b"), ("a-nb5x", "a-nb5x"), ("foo-1", "foo-1"), ("x-2.0-y", "x-2.0-y"), ("app-b", "app-a"), ("p-nb2", "p-nb3"), ("nb-nb", "nb-nb")] {
+        for v1 in ["1.0", "1.0nb2", "0.5", "2", "1.0alpha", "1", "1.0nb10"] {
+            for v2 in ["1.0", "1.0nb2", "0.5", "2", "1.0alpha", "1", "1.0nb10"] {
+                emit(Op::s("pattern.best", &["*-[0-9]*", &format!("{}-{}", b1, v1), &format!("{}-{}", b2, v2)]));
+            }
+        }
+    }
     for n in ["mktool-1.3.2NB2", "x-1nB", "dnb-2.0-SNB", "x-1Nb7", "x-1nb7NB8", "x-1NB7nb8", "x-NB", "NB1", "x-1.0nb\u{ff11}", "x-1.0nb1\u{212A}"] {
         emit(Op::s("pkgname.new", &[n]));
         emit(Op::s("summary.pkgsplit", &[n]));
